@@ -83,7 +83,7 @@ for idx in order:
         elif kind == "boot":
             from suit_generator.cmd_image import ImageCreator
             ImageCreator.create_files_for_boot(input_files=op["inputs"], storage_output_directory=od,
-                                               storage_address=op["envelope_address"], config_file=None, **({"soc": op["soc"]} if "soc" in op else {}))
+                                               storage_address=op["envelope_address"], config_file=op.get("config"), **({"soc": op["soc"]} if "soc" in op else {}))
         res = digest_dir(od)
     except Exception as e:
         res = {"exception": type(e).__name__}
@@ -199,6 +199,27 @@ def build_ops(ck, tmp, n):
         with open(pr, "wb") as fh:
             fh.write(rr[1])
         ops.append({"kind": "boot", "inputs": [pr], "envelope_address": 0x0E1E9340, "uci": 0x0E1E9340})
+    # storage images under DIFFERENT build configurations in one interpreter: the first configuration gives a role to a class the
+    # second one does not know — anything remembered from the first configuration file shows in the second run
+    leak = {"SUIT_Envelope_Tagged": {
+        "suit-authentication-wrapper": {"SuitDigest": {"suit-digest-algorithm-id": "cose-alg-sha-256"}},
+        "suit-manifest": {"suit-manifest-version": 1, "suit-manifest-sequence-number": 1,
+                          "suit-manifest-component-id": ["INSTLD_MFST", {"RFC4122_UUID": {"namespace": "acme.example", "name": "only_in_first_config"}}],
+                          "suit-common": {"suit-components": [["M", 2]]}}}}
+    rl = interp.run_impl(interp.impl_create, leak)
+    if rl[0] == "ok":
+        pl = os.path.join(tmp, "leak.suit")
+        with open(pl, "wb") as fh:
+            fh.write(rl[1])
+        cfgs = []
+        for j, lines in enumerate((['SB_CONFIG_SUIT_MPI_APP_LOCAL_2_VENDOR_NAME="acme.example"', 'SB_CONFIG_SUIT_MPI_APP_LOCAL_2_CLASS_NAME="only_in_first_config"'],
+                                   ['SB_CONFIG_SUIT_MPI_APP_LOCAL_3_VENDOR_NAME="acme.example"', 'SB_CONFIG_SUIT_MPI_APP_LOCAL_3_CLASS_NAME="another_class"'])):
+            pc = os.path.join(tmp, f"cfg{j}.config")
+            with open(pc, "w") as fh:
+                fh.write("# generated by the verifier\nSB_CONFIG_SUIT_ENVELOPE=y\n" + "\n".join(lines) + "\n")
+            cfgs.append(pc)
+        ops.append({"kind": "boot", "inputs": [pl], "envelope_address": 0x0E1E9340, "config": cfgs[1], "designed": "soc", "twin": len(ops)})
+        ops.append({"kind": "boot", "inputs": [pl], "envelope_address": 0x0E1E9340, "config": cfgs[0], "designed": "soc", "twin": len(ops)})
     # storage images for BOTH SoCs in one interpreter: for every role whose slot size differs between the two layouts, an envelope
     # of the default class of that role sized between the two slot sizes (it fits one SoC only) — any layout detail remembered
     # from the first SoC shows in the second run
